@@ -10,8 +10,8 @@ Recipe kinds (all plain JSON):
         (unregistered attributes/types allowed); T is a text recipe (see render())
   {"kind": "opinfo", "a": O, "b": O}                     CSE keys (OperationInfo) of two test.op built
         from O = {"attrs": [[k, R]...], "props": [[k, R]...], "res": [R...]}
-  {"kind": "corpus", "file": relpath, "idx": i}          chunk i of a tests/**/*.mlir file parsed in two
-        fresh contexts (all dialects): every attribute/property/type of every op, pairwise
+  {"kind": "corpus", "file": relpath}                    every chunk of a tests/**/*.mlir file parsed in
+        two fresh contexts (all dialects): every attribute/property/type of every op, pairwise
 Oracle (a, b, c range over the built values; key = vt.attrgen.attr_key):
   reflexive a == a, stable hash; symmetric; transitive; a == b => hash(a) == hash(b);
   key(a) == key(b) => a == b  (same parameters / same construction / same text);
@@ -40,7 +40,9 @@ RULE = ("triples of builtin attribute/type values from the C06 recipe strategy (
         "contexts; OperationInfo keys of two test.op built from attribute/property/result-type "
         "recipes; every attribute/property/type of the ops of the repository's .mlir corpus (dialect "
         "attributes), each chunk parsed in two fresh contexts, corresponding values compared and the "
-        "first 25 distinct values of a chunk compared pairwise. Oracle: reflexive, symmetric, transitive, eq => equal hash, equal attr_key => "
+        "distinct values compared pairwise (first 25 of a chunk; up to 8 per attribute class of a "
+        "file), and each value compared with variants rebuilt through new() with one parameter "
+        "replaced by another value its verifier accepts. Oracle: reflexive, symmetric, transitive, eq => equal hash, equal attr_key => "
         "equal, observably different (printer distinguishes them or float bits differ) => unequal. "
         "Non-trivial: the pair is equal by construction (same recipe / same text / alternative "
         "path) or differs only in a float payload.")
@@ -575,55 +577,103 @@ def module_attrs(module):
     return out
 
 
+def _fixed_candidates():
+    from xdsl.dialects import builtin as B
+    return [B.i32, B.i64, B.f32, B.f64, B.IndexType(), B.StringAttr("x"), B.StringAttr(""),
+            B.IntegerAttr(0, B.i32), B.IntegerAttr(1, B.i64), B.ArrayAttr([]), B.UnitAttr(),
+            B.IntAttr(0), B.IntAttr(7), B.NoneAttr()]
+
+
+def check_mutants(rep, a, pool) -> int:
+    """Parameter sensitivity: rebuild `a` with one parameter replaced by another value that its
+    own verifier accepts; if the printer distinguishes the two they must be unequal."""
+    from xdsl.ir import ParametrizedAttribute
+    if not isinstance(a, ParametrizedAttribute):
+        return 0
+    params = list(a.parameters)
+    n = 0
+    for i, p in enumerate(params):
+        kp = G.attr_key(p)
+        cands = [c for c in pool if type(c) is type(p)][:3] + _fixed_candidates()
+        tried = 0
+        for c in cands:
+            if tried >= 4:
+                break
+            try:
+                if G.attr_key(c) == kp:
+                    continue
+                b = type(a).new(params[:i] + [c] + params[i + 1:])
+                G.attr_key(b)
+            except Exception:  # the attribute's verifier (any error) rejects the replacement
+                continue
+            tried += 1
+            n += 1
+            check_pair(rep, a, b, None)
+    return n
+
+
 def run_corpus(h, recipe):
+    """All chunks of one corpus file: every attribute of every op, the chunk parsed in two fresh
+    contexts; the distinct values of the file are compared pairwise within each attribute class
+    (at most 8 per class) and across classes (first 25 of each chunk)."""
     from vt import corpus
-    text = None
-    for rel, idx, t in corpus.chunks():
-        if rel == recipe["file"] and idx == recipe["idx"]:
-            text = t
-            break
-    if text is None:
-        _discard(h, "corpus_chunk_missing")
-        return
-    try:
-        with G.time_limit(60.0):
-            m1 = corpus.parse_chunk(text, verify=False)
-            m2 = corpus.parse_chunk(text, verify=False)
-    except G.ParseTimeout:
-        if _counting(h):
-            h.inconclusive("corpus_parse_timeout")
-        return
-    if m1 is None or m2 is None:
-        _discard(h, "corpus_chunk_rejected")
+    texts = [t for rel, idx, t in corpus.chunks() if rel == recipe["file"] and len(t) <= 30000]
+    if not texts:
+        _discard(h, "corpus_file_missing")
         return
     rep = Rep(h, recipe)
-    l1, l2 = module_attrs(m1), module_attrs(m2)
-    if len(l1) != len(l2):
-        h.mismatch({"check": "two_contexts_shape", "cls": "-", "value_class": "-", "parent": "-"},
-                   recipe, "the same text parsed twice yields different numbers of attributes")
-        return
-    seen, pool = set(), []
-    for a, b in zip(l1, l2):
+    by_class: dict[str, list] = {}
+    n_attrs = n_mut = 0
+    for text in texts:
         try:
-            k = G.attr_key(a)
-            G.attr_key(b)
-        except TypeError as e:
+            with G.time_limit(60.0):
+                m1 = corpus.parse_chunk(text, verify=False)
+                m2 = corpus.parse_chunk(text, verify=False)
+        except G.ParseTimeout:
             if _counting(h):
-                h.count("corpus_unsupported_payload:" + str(e)[-40:])
+                h.inconclusive("corpus_parse_timeout")
             continue
-        if k in seen:
+        if m1 is None or m2 is None:
+            _discard(h, "corpus_chunk_rejected")
             continue
-        seen.add(k)
-        check_single(rep, a)
-        check_pair(rep, a, b, "two_contexts")
-        if len(pool) < 25:
-            pool.append(a)
-        if _counting(h):
-            h.count("corpus_attr:" + cname(a))
-    for i in range(len(pool)):
-        for j in range(i + 1, len(pool)):
-            check_pair(rep, pool[i], pool[j], None)
-    _case(h, recipe, bool(pool), "corpus")
+        l1, l2 = module_attrs(m1), module_attrs(m2)
+        if len(l1) != len(l2):
+            h.mismatch({"check": "two_contexts_shape", "cls": "-", "value_class": "-",
+                        "parent": "-"}, recipe,
+                       "the same text parsed twice yields different numbers of attributes")
+            continue
+        seen, pool = set(), []
+        for a, b in zip(l1, l2):
+            try:
+                k = G.attr_key(a)
+                G.attr_key(b)
+            except TypeError as e:
+                if _counting(h):
+                    h.count("corpus_unsupported_payload:" + str(e)[-40:])
+                continue
+            if k in seen:
+                continue
+            seen.add(k)
+            n_attrs += 1
+            check_single(rep, a)
+            check_pair(rep, a, b, "two_contexts")
+            if len(pool) < 25:
+                pool.append(a)
+            if n_mut < 400:
+                n_mut += check_mutants(rep, a, pool)
+            same_class = by_class.setdefault(cname(a), [])
+            if len(same_class) < 8 and all(G.attr_key(x) != k for x in same_class):
+                same_class.append(a)
+            if _counting(h):
+                h.count("corpus_attr:" + cname(a))
+        for i in range(len(pool)):
+            for j in range(i + 1, len(pool)):
+                check_pair(rep, pool[i], pool[j], None)
+    for vals in by_class.values():
+        for i in range(len(vals)):
+            for j in range(i + 1, len(vals)):
+                check_pair(rep, vals[i], vals[j], None)
+    _case(h, recipe, n_attrs > 0, "corpus")
 
 
 # ------------------------------------------------------------------------------------------------
@@ -827,12 +877,12 @@ def checks(h):
             if idx % h.nshards == h.shard:
                 run_recipe(h, r)
 
-    # corpus slice of this shard (dialect attributes)
+    # corpus files of this shard (dialect attributes)
     from vt import corpus
-    for i, (rel, cidx, text) in enumerate(corpus.chunks()):
-        if i % h.nshards != h.shard or len(text) > 30000:
-            continue
-        run_recipe(h, {"kind": "corpus", "file": rel, "idx": cidx})
+    files = sorted({rel for rel, _, _ in corpus.chunks()})
+    for i, rel in enumerate(files):
+        if i % h.nshards == h.shard:
+            run_recipe(h, {"kind": "corpus", "file": rel})
 
     def body(r):
         run_recipe(h, r)
